@@ -618,7 +618,7 @@ func unwrapContainerSibling(req *ir.Request, full, path string) bool {
 		for _, vf := range vm.Fields {
 			if vf.Ann.Unwrap && vf.Card == "repeated" {
 				container = true
-				if ir.JSONName(f.Name) == first {
+				if f.JSON() == first {
 					return false
 				}
 			}
@@ -729,7 +729,12 @@ func genTSServerFile(r *gen.R, idx int) *ir.Request {
 			nv := 1 + r.Intn(3)
 			for v := 0; v < nv; v++ {
 				fn := uniq(used, gen.Pick(r, names))
-				in.Fields = append(in.Fields, &ir.Field{Name: fn, Number: no, Kind: gen.Pick(r, gen.PathScalarKinds)})
+				pf := &ir.Field{Name: fn, Number: no, Kind: gen.Pick(r, gen.PathScalarKinds)}
+				if r.P(1, 3) || (i == 0 && v == 0) {
+					// explicit json_name: the handler argument's property is the descriptor's JSON name
+					pf.JSONName = "x" + ir.JSONName("_"+fn)
+				}
+				in.Fields = append(in.Fields, pf)
 				no++
 				path += "/{" + fn + "}"
 				if r.Bool() {
@@ -770,6 +775,9 @@ func genTSServerFile(r *gen.R, idx int) *ir.Request {
 				}
 				k := gen.Pick(r, queryKinds)
 				fl := &ir.Field{Name: fn, Number: no, Kind: k, Ann: ir.Ann{Query: qa}}
+				if r.P(1, 4) {
+					fl.JSONName = "x" + ir.JSONName("_"+fn)
+				}
 				if k == "enum" {
 					fl.TypeName = P + "Color"
 				}
@@ -1138,7 +1146,7 @@ func c07Handler(c *Ctx, r *gen.R) error {
 			prop := strings.Split(strings.TrimPrefix(v.path, "/"), "/")[0]
 			src := "body"
 			for _, f := range hc.mi.in.Fields {
-				if ir.JSONName(f.Name) != prop {
+				if f.JSON() != prop {
 					continue
 				}
 				for _, pv := range hc.mi.pathVars {
